@@ -4,7 +4,7 @@
    the accepted digest list assigns to that very file name, and the accepted digest list reproduces
    the Merkle root signed in the certificate. *)
 From Coq Require Import String.
-From MV Require Import Base.Prelude Base.SymHash Gen.Consts C12.Model C12.Proofs C10.Model C10.Proofs C10.RoundTrip.
+From MV Require Import Base.Prelude Base.SymHash Gen.Consts C12.Model C12.Proofs C10.Model C10.Proofs C10.RoundTrip C10.Served.
 Open Scope N_scope.
 
 (* acceptance of a served digest list: the certificate's signed message commits to exactly the value
@@ -61,6 +61,11 @@ Qed.
 Theorem C10_trio_names : forall n ext, n < U64 -> In ext EXTS ->
   has_immutable_ext (trio_name n ext) = true /\ num_of (trio_name n ext) = Some n.
 Proof. exact trio_name_roundtrip. Qed.
+
+(* served names are paths: a plain name (no '/', not "", ".", "..") is filtered by its own number;
+   a path-like name by the number of its last component, and is kept under its full text *)
+Theorem C10_served_plain : forall nm, plain nm -> served_num_of nm = num_of nm.
+Proof. exact served_num_of_plain. Qed.
 
 (* ... hence, without allow_missing, success means: every trio file of the range is present as a
    regular file AND carries the digest the verified list assigns to its own name *)
